@@ -567,6 +567,11 @@ def gen_case(rng, malformed=False):
         if kind in ("tcp", "relaxed", "tcp_local", "relaxed_local") and any(d["kind"] in ("tcp", "relaxed", "tcp_local", "relaxed_local") for d in res):
             kind = "local"
         res.append(gen_res(rng, "r%d" % i, kind))
+    if any(d["kind"] == "nested" for d in res):
+        # a panic inside abort() (the three kinds whose Abort panics) races with the nested resource's asynchronous
+        # Abort goroutine, which then panics on its own goroutine when the dying context stops the nested archetype:
+        # the process dies either way, but the harness cannot recover that one, so the kinds are not mixed
+        res = [gen_res(rng, d["name"], "local") if d["kind"] in ("singleout", "relaxed", "placeholder") else d for d in res]
     snap = [[".pc", []]]
     for d in res:
         if d["kind"] in ("incmap_local", "incmap_persist"):
